@@ -195,14 +195,17 @@ def _execute(sc, sim, out):
         sim.arm('byte', flt['kind'], at, target=sim.rel(outp))
         r1 = _writer(sc, sim, W, d, text, outp)
         sim.faults = []
-        if r1[0] not in ('crash', 'exc'):
+        if r1[0] == 'ok':
+            out.probe('open_seam_bypassed')      # output not opened through the seam: the run simply completed
+        elif r1[0] not in ('crash', 'exc'):
             raise env.HarnessError('faulted writer ended with %r' % (r1,))
         if r1[0] == 'exc' and not isinstance(r1[1], OSError):
             out.violate('writer-failed', 'fit() raised %s before the fault' % pipe.exc_name(r1), key='fit/%s@%s' % (pipe.exc_name(r1), pipe.where(r1[1])))
             return
         # what is left behind must never read as a wrong record (C19's oracle, applied here to the live crash)
         rr = pipe.call(pipe.read_fit_sed, outp)
-        _c19._judge(out, rr, TM, None, 'after %s at byte %d' % (flt['kind'], at), probes=False)
+        if r1[0] != 'ok':
+            _c19._judge(out, rr, TM, None, 'after %s at byte %d' % (flt['kind'], at), probes=False)
         trace += [flt['kind'], region, sc['restart_reply']]
         if out.violations:
             out.trace = trace
